@@ -172,8 +172,10 @@ class E2ECheck:
         scale = 1 if tier == "quick" else 4
         if len(nontrivial) < need * (1 if tier == "quick" else scale):
             inconclusive.append(f"only {len(nontrivial)} non-trivial worlds (< {need * scale})")
-        if status.get("wallclock"):
-            inconclusive.append(f"{status['wallclock']} worlds hit the wall-clock alarm")
+        # a world stopped by the wall-clock alarm was not explored (it is neither held nor violated); a few of them on a
+        # loaded machine do not undo what the other worlds showed, as long as every deciding floor below is still met
+        if status.get("wallclock", 0) > max(3, len(worlds) // 25):
+            inconclusive.append(f"{status['wallclock']} of {len(worlds)} worlds hit the wall-clock alarm")
         deciding = self.deciding_counters(tot)
         for name, val, minimum in deciding:
             if val < minimum:
